@@ -3,6 +3,7 @@
 package hashing
 
 import (
+	"bytes"
 	"fmt"
 	"os"
 	"path/filepath"
@@ -10,6 +11,7 @@ import (
 	"strings"
 	"sync"
 	"sync/atomic"
+	"syscall"
 	"time"
 
 	"github.com/FollowTheProcess/spok/hash"
@@ -27,6 +29,7 @@ const (
 	KDangling = "dangling"
 	KSymlink  = "symlink"
 	KVanish   = "vanishing"
+	KShrink   = "shrinking"            // cut to nothing in place and filled again while being hashed (cp over it, an editor saving)
 	KUnread   = "unreadable-dir-entry" // a path below a regular file (ENOTDIR)
 	KReadFail = "opens-but-read-fails" // /proc/self/mem: open succeeds, the first read returns EIO
 	KLoop     = "link-to-itself"       // open fails with ELOOP
@@ -42,6 +45,10 @@ type ListCase struct {
 	// Shared: after the single call, four goroutines hash the very same slice at once (callers may
 	// share a list; Hash only reads it): all must agree with the single call, and the list is unchanged
 	Shared bool `json:"shared,omitempty"`
+	// NoFds: while Hash runs the process has no file descriptor to spare (its RLIMIT_NOFILE is 0 for the
+	// duration): every open fails with EMFILE, a condition that does not go away by waiting. Hash
+	// returns an error (or, for a list without entries to open, a digest); it does not hang.
+	NoFds bool `json:"no_fds,omitempty"`
 }
 
 func (c ListCase) size() int { return len(c.Kinds) + len(c.Dups) }
@@ -64,8 +71,12 @@ var readFailPath = func() string {
 	return p
 }()
 
+// shrinking: the paths of the current case that are cut in place rather than removed.
+var shrinking = map[string]bool{}
+
 // build creates the entries under root and returns the path list.
 func (c ListCase) build(root string) ([]string, []string, error) {
+	shrinking = map[string]bool{}
 	var paths, vanishing []string
 	for i, k := range c.Kinds {
 		p := filepath.Join(root, fmt.Sprintf("e%03d", i))
@@ -100,6 +111,12 @@ func (c ListCase) build(root string) ([]string, []string, error) {
 				return nil, nil, err
 			}
 			vanishing = append(vanishing, p)
+		case KShrink:
+			if err := os.WriteFile(p, []byte(strings.Repeat("s", 1<<16)), 0o644); err != nil {
+				return nil, nil, err
+			}
+			vanishing = append(vanishing, p)
+			shrinking[p] = true
 		case KReadFail:
 			if readFailPath == "" {
 				// no such file here: fall back to a missing one (still an entry that cannot be read)
@@ -169,7 +186,7 @@ func execList(s *ev.Shard, root string, c ListCase) *rp.Fail {
 		switch {
 		case faulty(k):
 			nFaulty++
-		case k == KVanish:
+		case k == KVanish || k == KShrink:
 			nVanish++
 		case k == KRegular || k == KEmpty || k == KSymlink:
 			nRegular++
@@ -185,6 +202,16 @@ func execList(s *ev.Shard, root string, c ListCase) *rp.Fail {
 			defer wg.Done()
 			for !stop.Load() {
 				for _, p := range vanishing {
+					if shrinking[p] {
+						// same file, same inode: its length drops to zero under the reader and grows again
+						_ = os.Truncate(p, 0)
+						runtime.Gosched()
+						if f, err := os.OpenFile(p, os.O_WRONLY, 0); err == nil {
+							_, _ = f.Write(bytes.Repeat([]byte("t"), 1<<16))
+							_ = f.Close()
+						}
+						continue
+					}
 					_ = os.Remove(p)
 					runtime.Gosched()
 					_ = os.WriteFile(p, []byte(strings.Repeat("w", 4096)), 0o644)
@@ -200,7 +227,27 @@ func execList(s *ev.Shard, root string, c ListCase) *rp.Fail {
 	}
 	runtime.Gosched()
 	baseline := runtime.NumGoroutine()
+	var oldLimit syscall.Rlimit
+	if c.NoFds {
+		if err := syscall.Getrlimit(syscall.RLIMIT_NOFILE, &oldLimit); err != nil {
+			return &rp.Fail{Sig: "harness", Msg: err.Error()}
+		}
+		none := oldLimit
+		none.Cur = 0
+		if err := syscall.Setrlimit(syscall.RLIMIT_NOFILE, &none); err != nil {
+			return &rp.Fail{Sig: "harness", Msg: err.Error()}
+		}
+	}
 	digest, herr := hash.New().Hash(paths)
+	if c.NoFds {
+		_ = syscall.Setrlimit(syscall.RLIMIT_NOFILE, &oldLimit)
+		if len(paths) > 0 {
+			nFaulty++ // nothing could be opened
+		}
+		if s != nil {
+			s.Class("no_file_descriptor_to_spare")
+		}
+	}
 	stop.Store(true)
 	wg.Wait()
 	if len(vanishing) > 0 {
